@@ -433,7 +433,12 @@ func childMain() {
 	json.NewEncoder(os.Stdout).Encode(o)
 }
 
+var currentInput string // for the abort message of memWatch
+
 func execute(in c14In) c14Out {
+	if b, err := json.Marshal(in); err == nil {
+		currentInput = string(b)
+	}
 	var o c14Out
 	if kfHeader(in) {
 		o = runChild(in)
@@ -1122,7 +1127,11 @@ func genScale(r *Rng) c14In {
 			// inside the range
 			if b > a {
 				span := uint64(b) - uint64(a)
-				vs = append(vs, int64(uint64(a)+r.U64()%(span+1)))
+				off := r.U64()
+				if span+1 != 0 {
+					off %= span + 1
+				}
+				vs = append(vs, int64(uint64(a)+off))
 			}
 		}
 	}
@@ -1168,7 +1177,12 @@ func genStack(r *Rng) c14In {
 	case 2:
 		in.MaxVal = mx
 	case 3:
+		// a negative maximum (never passed by BarGraph): the pinned code draws val*len/max blocks,
+		// so the values are kept small here — the harness must not allocate terabytes
 		in.MaxVal = -int64(r.Range(1, 5))
+		for i := range in.Vs {
+			in.Vs[i] = int64(r.Range(-9, 9))
+		}
 	default:
 		in.MaxVal = sum
 		if in.MaxVal < 0 {
@@ -1408,7 +1422,7 @@ func memWatch() {
 		var ms runtime.MemStats
 		runtime.ReadMemStats(&ms)
 		if ms.HeapAlloc > 4<<30 {
-			fmt.Fprintln(os.Stderr, "C14 harness: runaway allocation in a renderer (a call that did not return keeps allocating); aborting")
+			fmt.Fprintln(os.Stderr, "C14 harness: runaway allocation in a renderer (a call that did not return keeps allocating); aborting; last input: "+currentInput)
 			os.Exit(3)
 		}
 	}
